@@ -47,10 +47,15 @@ def compare(rec, b, mjm, mjd, m, d, cmp, opts):
   if mjm.nv:
     mujoco.mju_sym2dense(M, mjd.M, mjm.M_rownnz, mjm.M_rowadr, mjm.M_colind)
     Mw = full_m(mjw, m, d)
+  # qacc_smooth = M^-1 qfrc_smooth: a float32 solve loses about eps * cond(M) (cond reaches 1e5 for light distal links on heavy roots); everything else
+  # is a sum of products and keeps the flat tolerance
+  kappa = float(np.linalg.cond(M)) if mjm.nv else 1.0
+  tol_solve = max(opts.get("tol", 3e-4), 1.5e-8 * kappa)
   for w in range(d.nworld):
     if mjm.nv:
       cmp.close("M", Mw[w], M)
-    cmp.fields(d, mjd, FIELDS, world=w)
+    cmp.fields(d, mjd, [f for f in FIELDS if f != "qacc_smooth"], world=w)
+    cmp.close("qacc_smooth", d.qacc_smooth.numpy()[w], mjd.qacc_smooth, tol_solve)
 
 
 def run(ctx: core.Ctx):
@@ -70,8 +75,9 @@ def replay(ctx, scen):
   rec = {"c": scen["scenario"]["cfg"]}
   for res in parity.chunk((__name__, "compare", [rec], scen.get("seed", ctx.seed), 2, {"tol": 1e-4})):
     ctx.case(rec)
-    if res["bad"]:
-      ctx.violation({"what": "smooth-dynamics quantity differs from MuJoCo C", "field": res["bad"][0][0]}, str(res["bad"][:5]), scen["scenario"])
+    for name in sorted({x[0] for x in res["bad"]}):  # same keys as parity.run: one per field, class after the '@'
+      fld, _, cls = name.partition("@")
+      ctx.violation(dict({"what": "smooth-dynamics quantity differs from MuJoCo C", "field": fld}, **({"cls": cls} if cls else {})), str([x for x in res["bad"] if x[0] == name][:5]), scen["scenario"])
 
 
 META = {
